@@ -163,6 +163,7 @@ pub fn main(o: &Opts) -> i32 {
         }
     };
     progs.extend(size_family(if o.tier == Tier::Quick { 5 } else { 9 }).into_iter().map(|x| x.3));
+    progs.extend(extra_programs());
     if let Some(path) = &o.replay {
         let v: Value = serde_json::from_str(&std::fs::read_to_string(path).unwrap()).unwrap();
         progs.retain(|p| Some(p.name().as_str()) == v["case"]["program"].as_str());
